@@ -28,6 +28,7 @@ var manifestations = []manifest{
 	{"stage-error", "hard", "smj", 0},
 	{"assert", "hard", "smj", 0},
 	{"exit-nonzero", "hard", "smj", 0},
+	{"assert-then-die", "hard", "smj", 0},
 	{"die-signal", "transient", "smj", 0},
 	{"die-early", "transient", "smj", 0},
 	{"transient-error", "transient", "smj", 0},
@@ -80,6 +81,12 @@ func c06Case(c *Ctx) {
 		flags = append(flags, fmt.Sprintf("--autoretry=%d", retries))
 	} else {
 		retries = 2
+	}
+	if c.Plan.Draw(3) == 0 {
+		// no pause before a retry: the failed attempt is reset within the second in
+		// which its directory was made (the uniquifier is pid + second)
+		flags = append(flags, "--retry-wait=0")
+		c.Res.Probes["bases-with-retry-wait-0"]++
 	}
 	// a fifth of the bases run in cluster mode under --maxjobs: jobs wait for a
 	// submission slot, are not children of mrp, and an in-process retry replaces the
